@@ -56,17 +56,18 @@ def variants():
                            "expect": v.get("expect", {}).get(prop, v.get("expect_any", [])) if isinstance(v.get("expect"), dict) else v.get("expect", [])})
     # behaviour-preserving refactorings written by independent sub-agents (DESIGN §13): each must stay silent for the
     # property it was written for and for every property whose check it once made fail
-    rdir = os.path.join(SELF, "refactors")
-    alarms = {}
-    ap = os.path.join(SELF, "refactor_alarms.json")
-    if os.path.exists(ap):
-        alarms = json.load(open(ap))
-    for pd in sorted(os.listdir(rdir)) if os.path.isdir(rdir) else []:
-        for f in sorted(os.listdir(os.path.join(rdir, pd))):
-            if f.endswith(".diff"):
-                name = f"{pd}_{f[:-5]}"
-                for prop in sorted({pd} | set(alarms.get(name, []))):
-                    vs.append({"name": f"refactor-{name}", "kind": "must-stay-silent", "patch": os.path.join(rdir, pd, f), "prop": prop, "expect": []})
+    for sub, amap, tag in (("refactors", "refactor_alarms.json", "refactor"), ("refactors2", "refactor2_alarms.json", "refactor2")):
+        rdir = os.path.join(SELF, sub)
+        alarms = {}
+        ap = os.path.join(SELF, amap)
+        if os.path.exists(ap):
+            alarms = json.load(open(ap))
+        for pd in sorted(os.listdir(rdir)) if os.path.isdir(rdir) else []:
+            for f in sorted(os.listdir(os.path.join(rdir, pd))):
+                if f.endswith(".diff"):
+                    name = f"{pd}_{f[:-5]}"
+                    for prop in sorted({pd} | set(alarms.get(name, []))):
+                        vs.append({"name": f"{tag}-{name}", "kind": "must-stay-silent", "patch": os.path.join(rdir, pd, f), "prop": prop, "expect": []})
     sdir = os.path.join(VERIF, "seeded")
     for d in sorted(os.listdir(sdir)) if os.path.isdir(sdir) else []:
         mp = os.path.join(sdir, d, "meta.json")
